@@ -120,6 +120,86 @@ func (c *Ctx) adp(which map[string]bool) {
 			}
 		}
 		a.done(1, "seqNo is stored from the maximum decoded sequence number before the client is built")
+		// … and it is the maximum: the running value only ever takes a decoded
+		// number that is greater, and keeps its own otherwise
+		mx := c.acc("ADP-1", ad, "storage-sequence-seed-is-the-running-maximum")
+		var runMax *ssa.Phi
+		for _, b := range ad.Blocks {
+			for _, ins := range b.Instrs {
+				phi, ok := ins.(*ssa.Phi)
+				if !ok || phi.Type().String() != "uint64" {
+					continue
+				}
+				for _, e := range phi.Edges {
+					if isK(e, 0) && c.dependsOnDecodeSeq(phi, dec, 0) {
+						runMax = phi
+					}
+				}
+			}
+		}
+		if runMax == nil {
+			mx.failAt(c.P.Pos(ad.Pos()), "no running maximum of the decoded sequence numbers found (a uint64 that starts at 0 and is updated from decodeValue's result in the record loop)")
+		} else {
+			for _, p := range paths {
+				if p.End != pathx.KLoopBack || p.Events[len(p.Events)-1].Target != runMax.Block() {
+					continue
+				}
+				// the value the running maximum takes at the next iteration
+				latch := p.Blocks[len(p.Blocks)-1]
+				var next ssa.Value
+				for i, pb := range runMax.Block().Preds {
+					if pb == latch {
+						next = runMax.Edges[i]
+					}
+				}
+				choice := phiChoices(p, ad)
+				for d := 0; d < 10 && next != nil; d++ {
+					ph, ok := next.(*ssa.Phi)
+					if !ok || ph == runMax || choice[ph] == nil {
+						break
+					}
+					next = choice[ph]
+				}
+				id := p.Index(0, func(e *pathx.Event) bool { return isCallTo(e, dec) })
+				if next == nil || id < 0 {
+					continue
+				}
+				if n, k := nilResult(p, id, -1); !k || !n {
+					continue // no number decoded in this iteration
+				}
+				greater, notGreater := false, false
+				for _, cm := range assumed(p, id, -1) {
+					for _, k := range []cmp{cm, cm.swapped()} {
+						if stripConv(k.Y) != ssa.Value(runMax) || !c.dependsOnDecodeSeq(k.X, dec, 0) {
+							continue
+						}
+						switch k.Op {
+						case token.GTR, token.GEQ:
+							greater = true
+						case token.LEQ, token.LSS:
+							notGreater = true
+						}
+					}
+				}
+				isMaxCall := false
+				if call, ok := next.(*ssa.Call); ok {
+					if bl, ok := call.Call.Value.(*ssa.Builtin); ok && bl.Name() == "max" {
+						isMaxCall = true
+					}
+				}
+				switch {
+				case isMaxCall:
+					mx.pass()
+				case next == ssa.Value(runMax) && notGreater:
+					mx.pass()
+				case next != ssa.Value(runMax) && c.dependsOnDecodeSeq(next, dec, 0) && greater:
+					mx.pass()
+				default:
+					mx.fail(p, len(p.Events)-1, "the running maximum of the storage sequence is updated to %s on a path with (decoded > current: %v, decoded ≤ current: %v): the seed is not the maximum, and records saved after the adoption can sort before adopted ones", Expr(next), greater, notGreater)
+				}
+			}
+		}
+		mx.done(2, "updated exactly when the decoded number is greater")
 	}
 
 	if which["ADP-2"] || which["ADP-3"] {
@@ -189,6 +269,37 @@ func (c *Ctx) adp(which map[string]bool) {
 			}
 		}
 		if which["ADP-2"] {
+			// the client identifier record is not a transfer: it is neither
+			// deleted nor filed, whatever its bytes look like (an identifier
+			// starting with a letter 'a'–'o' has the type nibble of PUBREL)
+			cid := c.acc("ADP-2", ad, "client-identifier-record-neither-deleted-nor-filed")
+			for _, p := range paths {
+				if p.End != pathx.KLoopBack || p.Events[len(p.Events)-1].Target != recHeader {
+					continue
+				}
+				for i := range p.Events {
+					e := &p.Events[i]
+					if persistenceOp(e) != "Delete" && !isAppendTo(e, "[]uint") && e.Kind != pathx.KMapUpdate {
+						continue
+					}
+					notID := false
+					for _, cm := range assumed(p, 0, i) {
+						if cm.Op == token.NEQ && isK(cm.Y, c.constInt("clientIDKey")) {
+							if _, isAnd := stripConv(cm.X).(*ssa.BinOp); !isAnd {
+								notID = true
+							}
+						}
+					}
+					if notID {
+						cid.pass()
+					} else {
+						cid.fail(p, i, "a record is deleted or filed on a path that has not excluded the client identifier key: a damaged identifier record is removed (the next connect presents an empty identifier), or the identifier's bytes are taken for a PUBLISH/PUBREL record")
+					}
+				}
+			}
+			cid.done(2, "every Delete and every filing lies behind key != clientIDKey")
+			// a failed List or Load ends the adoption: it must not be taken for a damaged record
+			c.errorsNotSkippedIO("ADP-2", ad)
 			corrupt.done(2, "both corrupt-record paths delete, warn and continue before classification")
 			marker.done(1, "markers are checked but not filed")
 		}
@@ -422,6 +533,7 @@ func (c *Ctx) adp(which map[string]bool) {
 			// what is compared is the number that will be queued: the lists are
 			// not modified any more behind the comparison (gaps are dropped first)
 			fin := c.acc("ADP-5", ad, "pending-count-for-"+t.fld+"-taken-after-the-last-list-update")
+			cnt := c.acc("ADP-5", ad, "pending-count-for-"+t.fld+"-is-the-sum-of-its-lists")
 			lcAd := c.listClassesOf(ad)
 			for _, p := range paths {
 				if p.Start != ad.Blocks[0] {
@@ -456,6 +568,33 @@ func (c *Ctx) adp(which map[string]bool) {
 					if len(cells) == 0 {
 						continue
 					}
+					// the count is that of this level: one list for at-least-once, the sum of two for exactly-once
+					sum := 0
+					var terms func(v ssa.Value, neg bool) bool
+					terms = func(v ssa.Value, neg bool) bool {
+						switch x := stripConv(v).(type) {
+						case *ssa.BinOp:
+							if x.Op == token.ADD {
+								return terms(x.X, neg) && terms(x.Y, neg)
+							}
+							return false
+						case *ssa.Call:
+							if _, isLen := builtinCall(x, "len"); isLen && !neg {
+								sum++
+								return true
+							}
+						}
+						return false
+					}
+					wantTerms := 1
+					if t.fld == "ExactlyOnceMax" {
+						wantTerms = 2
+					}
+					if okSum := terms(cm.X, false); !okSum || sum != wantTerms || len(cells) != wantTerms {
+						cnt.fail(p, i, "Config.%s is compared with %s, want the sum of the lengths of %d pending list(s): the limit is applied to the wrong count", t.fld, Expr(cm.X), wantTerms)
+					} else {
+						cnt.pass()
+					}
 					late := -1
 					for j := i + 1; j < len(p.Events); j++ {
 						s := &p.Events[j]
@@ -481,6 +620,7 @@ func (c *Ctx) adp(which map[string]bool) {
 				}
 			}
 			fin.done(1, "no list in the comparison is stored to afterwards")
+			cnt.done(1, "the compared value is len(list) or len(list)+len(list)")
 			// the fatal return honours negative = default
 			for _, p := range paths {
 				if p.End != pathx.KReturn || retErr(p, len(p.Events)-1) == triNil {
@@ -675,7 +815,16 @@ func (c *Ctx) adp(which map[string]bool) {
 			for _, b := range p.Blocks {
 				for _, ins := range b.Instrs {
 					if sl, ok := ins.(*ssa.Slice); ok && sl.Low != nil && sl.High == nil && sl.Type().String() == "[]uint" {
-						trunc = true
+						// keys[i:] with the scan index itself (not a constant: keys[0:] drops nothing and the scan never ends)
+						if lo := stripConv(sl.Low); lo == ssa.Value(idx) && idx != nil {
+							trunc = true
+						} else if ph, isPhi := lo.(*ssa.Phi); isPhi && idx != nil {
+							for _, e := range ph.Edges {
+								if e == ssa.Value(idx) {
+									trunc = true
+								}
+							}
+						}
 					}
 				}
 			}
@@ -739,6 +888,9 @@ func (c *Ctx) adp(which map[string]bool) {
 		} else {
 			a.failAt(c.P.Pos(ad.Pos()), "cleanSequence and the PUBREL→PUBLISH continuity test of AdoptSession disagree on what 'adjacent' means (n−p==1: %v/%v, n==0: %v/%v, p==publishIDMask: %v/%v): at the 14-bit roll-over one of them sees a gap the other does not", s1, s2, z1, z2, m1, m2)
 		}
+		adj2 := c.acc("ADP-8", clean, "scan-decides-adjacency-exactly(test-vectors)")
+		c.adp8Adjacency(clean, adj2)
+		adj2.done(12, "for each representative pair an iteration keeps adjacent records and reports a gap otherwise")
 		a.done(3, "index restarts at 1 after truncation; each gap warns and truncates; adjacency is n-p==1 (or the wrap), in both places")
 	}
 }
